@@ -21,6 +21,7 @@ package parser
 // analyzer.go contains utility analysis functions.
 
 import (
+	"fmt"
 	"strings"
 	"unicode"
 )
@@ -229,6 +230,33 @@ func SplitStatementToPieces(blob string) (pieces []string, err error) {
 		}
 	}
 	return
+}
+
+// ParamMarkerOffsets returns the byte offsets of the parameter markers ('?') of a statement text, as the SQL lexer sees
+// them: a '?' inside a string literal (whatever quotes it escapes or doubles), a quoted identifier or a comment is not a
+// parameter marker.
+func ParamMarkerOffsets(sql string) (offsets []int, err error) {
+	offsets = make([]int, 0)
+	tokenizer := NewScanner(sql)
+	for {
+		inVersionComment := tokenizer.specialComment != nil
+		tkn, pos, _ := tokenizer.scan()
+		switch tkn {
+		case 0, eofChar:
+			if len(tokenizer.errs) > 0 {
+				return nil, tokenizer.errs[0]
+			}
+			return offsets, nil
+		case paramMarker:
+			if inVersionComment || tokenizer.specialComment != nil {
+				// positions inside /*! ... */ are relative to the comment body
+				return nil, fmt.Errorf("parameter marker inside a version comment is not supported")
+			}
+			offsets = append(offsets, pos.Offset)
+		case unicode.ReplacementChar:
+			return nil, fmt.Errorf("invalid character at offset %d", pos.Offset)
+		}
+	}
 }
 
 // Tokenize splits a SQL string into tokens.
